@@ -23,7 +23,8 @@ int main() {
 		o << "> begin quad\n> grid " << type << " " << points << "\n";
 		std::string tr = t[k++];
 		if (tr == "zeroinf") { q.transformZeroInf(); o << "> zeroinf\n"; }
-		else if (tr == "rminmax") { double z = vh::D(t[k++]), p = vh::D(t[k++]); q.transformRMinMax(z, p); o << "> rminmax " << bits(z) << " " << bits(p) << "\n"; }
+		double rz = 1.0, rp = 0.0;
+		if (tr == "rminmax") { double z = vh::D(t[k++]), p = vh::D(t[k++]); rz = z; rp = p; q.transformRMinMax(z, p); o << "> rminmax " << bits(z) << " " << bits(p) << "\n"; }
 		int pw = vh::I(t[k++]); double zeta = vh::D(t[k++]), c = vh::D(t[k++]);
 		int ntol = vh::I(t[k++]); std::vector<double> tols; for (int i = 0; i < ntol; i++) tols.push_back(vh::D(t[k++]));
 		int start = vh::I(t[k++]), end = vh::I(t[k++]);
@@ -40,6 +41,24 @@ int main() {
 		for (double tol : tols) {
 			auto r = q.integrate(fn, f.data(), tol, start, end);
 			o << "> int " << bits(tol) << " " << start << " " << end << "\n";
+			o << "< I " << bits(r.first) << " " << (r.second ? 1 : 0) << "\n";
+		}
+		// correspondence only (the oracle reads the first ntol results): loose tolerances, so that the FIRST acceptance tests of both
+		// schemes decide the outcome - with the property's tolerances they never pass, and a change to them would stay invisible
+		for (double tol : {1e-1, 1e-2, 1e-3, 1e-5}) {
+			auto r = q.integrate(fn, f.data(), tol, start, end);
+			o << "> int " << bits(tol) << " " << start << " " << end << "\n";
+			o << "< I " << bits(r.first) << " " << (r.second ? 1 : 0) << "\n";
+		}
+		{ // an object that is initialised and transformed, then initialised and transformed AGAIN must hold the same grid as a fresh one
+			GCQuadrature q2; q2.initGrid(points, type == 0 ? ONEPOINT : TWOPOINT);
+			if (tr == "zeroinf") q2.transformZeroInf();
+			else if (tr == "rminmax") q2.transformRMinMax(zeta > 0 ? 0.5 * zeta + 0.1 : 1.0, c + 0.3);
+			q2.initGrid(points, type == 0 ? ONEPOINT : TWOPOINT);
+			if (tr == "zeroinf") q2.transformZeroInf();
+			else if (tr == "rminmax") q2.transformRMinMax(rz, rp);
+			auto r = q2.integrate(fn, f.data(), tols.empty() ? 1e-10 : tols[0], start, end);
+			o << "> int " << bits(tols.empty() ? 1e-10 : tols[0]) << " " << start << " " << end << "\n";
 			o << "< I " << bits(r.first) << " " << (r.second ? 1 : 0) << "\n";
 		}
 		{ // trace for the attribution of deviations: evaluations used at acceptance, and the finest-level value (tolerance 0: never accepted early)
